@@ -370,6 +370,11 @@ def run_shard(desc, ctx):
                     mon.pair('parse-options', 'x-p>' + key + '+x-q', 'x-p>(' + defn + ')+x-q', cfg, 'parse-options-pair', 'oracle:alias-equals-definition')
                     mon.pair('parse-options', key + '.c', defn.replace('*', '.c*', 1) if '>' not in defn and '*' in defn else defn + '.c' if '>' not in defn else key + '.c', cfg,
                              'parse-options-pair', 'oracle:alias-equals-definition')
+            # D2: the repeat limit is a budget of the whole expansion, but every definition is parsed with a budget of its own (open finding)
+            for m in (3, 4):
+                for a, d in (('st*2', '(span.star*5)*2'), ('x-p*2>st', 'x-p*2>span.star*5'), ('(st+x-q)*3', '(span.star*5+x-q)*3'), ('lk*2', '(a[href]*3)*2')):
+                    ctx.ev('limit-pair:d2')
+                    mon.pair('limit:d2', a, d, {'syntax': 'html', 'snippets': ptbl, 'maxRepeat': m, 'options': {'output.format': False}}, 'parse-options-pair', 'oracle:alias-equals-definition')
             for syntax in SYNTAXES:
                 for a, d in MULTI_PAIRS:
                     mon.pair('multi-top', a, d, {'syntax': syntax, 'snippets': dict(MULTI)}, 'multi-top-pair', 'oracle:multi-top')
@@ -442,4 +447,16 @@ def _numbering(rec):
     return a != d and re.sub(r'\d+', '#', a) == re.sub(r'\d+', '#', d)
 
 
-CLASSIFIERS = {'C14-numbering-inside-definition-ignores-alias-repeater': _numbering}
+def _limit(rec):
+    """maxRepeat is handed to the parser of every definition separately: each definition completes up to M copies of its own, so an alias under a
+    repeater yields more elements than its definition in place, which shares ONE budget.  Explains only the D2 limit pairs, and only when the alias
+    output is the longer one and differs from the definition's in nothing but the number of (equal) elements."""
+    c = rec['case']
+    if rec['kind'] != 'alias-differs-from-definition' or c.get('label') != 'limit:d2':
+        return False
+    a, d = rec['detail'].get('alias_output', ''), rec['detail'].get('definition_output', '')
+    ta, td = re.findall(r'<[^<>]+>', a), re.findall(r'<[^<>]+>', d)
+    return len(ta) > len(td) and set(ta) == set(td)
+
+
+CLASSIFIERS = {'C14-numbering-inside-definition-ignores-alias-repeater': _numbering, 'C14-repeat-limit-counted-per-definition': _limit}
